@@ -283,13 +283,32 @@ def canonical(out_df):
 
 
 def same_tables(a_df, b_df):
+    """Two spellings of the same n: the same sub-units.  Compared after ordering by (geom5, geom2), and only in what the
+    property fixes: parent, index, inherited fields, complete position, orientation (as a matrix, not as Euler angles);
+    subtomo_id numbering and the x/shift split are not compared."""
     if len(a_df) != len(b_df):
         return False, {"rows_a": len(a_df), "rows_b": len(b_df)}
     a, b = canonical(a_df), canonical(b_df)
-    d = np.abs(a - b)
-    bad = ~(d <= 1e-9)
-    if not bad.any():
-        return True, None
-    r, q = np.argwhere(bad)[0]
-    return False, {"row_in_(geom5,geom2)_order": int(r), "field": ALL_COLS[int(q)], "a": float(a[r, q]), "b": float(b[r, q]),
-                   "cells_differing": int(bad.sum())}
+    for col in ["geom5", "geom2"] + INHERITED:
+        q = ALL_COLS.index(col)
+        neq = ~(a[:, q] == b[:, q])
+        if neq.any():
+            r = int(np.flatnonzero(neq)[0])
+            return False, {"row_in_(geom5,geom2)_order": r, "field": col, "a": float(a[r, q]), "b": float(b[r, q]),
+                           "rows_differing": int(neq.sum())}
+    ix = [ALL_COLS.index(c) for c in ("x", "y", "z", "shift_x", "shift_y", "shift_z", "phi", "theta", "psi")]
+    pa, pb = a[:, ix[0:3]] + a[:, ix[3:6]], b[:, ix[0:3]] + b[:, ix[3:6]]
+    tol = 1e-9 + 1e-13 * float(np.abs(pa).max())
+    perr = np.abs(pa - pb).max(axis=1)
+    if perr.max() > tol:
+        r = int(np.argmax(perr))
+        return False, {"row_in_(geom5,geom2)_order": r, "field": "complete position", "a": _f(pa[r]), "b": _f(pb[r]),
+                       "rows_differing": int((perr > tol).sum())}
+    Ga = so3.zxz(a[:, ix[6]], a[:, ix[7]], a[:, ix[8]])
+    Gb = so3.zxz(b[:, ix[6]], b[:, ix[7]], b[:, ix[8]])
+    rerr = np.abs(Ga - Gb).reshape(len(a), -1).max(axis=1)
+    if rerr.max() > 2 * TOL_R:
+        r = int(np.argmax(rerr))
+        return False, {"row_in_(geom5,geom2)_order": r, "field": "orientation", "a_phi_theta_psi": _f(a[r, ix[6:9]]),
+                       "b_phi_theta_psi": _f(b[r, ix[6:9]]), "max_entry_error": float(rerr[r])}
+    return True, None
